@@ -81,3 +81,38 @@ Proof.
   set (h := Z.to_nat (Height T)) in *. rewrite HH in Hov |- *.
   exact (key_index_checker T h s from HT HH Hs Hf Hov Hlen dbg).
 Qed.
+
+(** * the statements in the argument order of Properties/C03.v (so that each theorem there is
+    closed by a bare [exact]) *)
+Lemma C03_strict_stmt T h q : 1 <= T < 2 ^ 31 -> Height T = Z.of_nat h -> (length q <= h)%nat ->
+  stored T q = true ->
+  PathToIndex T (enc h q) = Some (Z.of_nat (length (filter (fun r => pre_ltb r q) (stored_nodes T h)))).
+Proof. intros HT HH Hq _. exact (PathToIndex_pre_rank T h q HT HH Hq). Qed.
+
+Lemma C03_checker_loose_stmt T q (dbg : bool) : 1 <= T < 2 ^ 31 ->
+  (length q <= Z.to_nat (Height T))%nat ->
+  (if dbg then PathToIndexLoose_debug else PathToIndexLoose) T
+     (NewPath (valL (Z.to_nat (Height T)) q) (Z.of_nat (length q)) (Height T))
+  = Some (spec_loose T (Z.to_nat (Height T)) q).
+Proof. intros HT Hq. exact (checker_loose T q HT Hq dbg). Qed.
+
+Lemma C03_checker_strict_stmt T q (dbg : bool) : 1 <= T < 2 ^ 31 ->
+  (length q <= Z.to_nat (Height T))%nat -> stored T q = true ->
+  (if dbg then PathToIndex_debug else PathToIndex) T
+     (NewPath (valL (Z.to_nat (Height T)) q) (Z.of_nat (length q)) (Height T))
+  = Some (spec_rank T (Z.to_nat (Height T)) q).
+Proof. intros HT Hq. exact (checker_strict T q HT Hq dbg). Qed.
+
+Lemma C03_key_index_stmt T h s from (dbg : bool) : 1 <= T < 2 ^ 31 -> Height T = Z.of_nat h ->
+  bytes_ok s -> 0 <= from -> from + Z.of_nat h + 7 < 2 ^ 31 -> 8 * zlen s < 2 ^ 31 ->
+  exists p, PathOf s from (Z.of_nat h) = Some p /\
+    (if dbg then PathToIndexLoose_debug else PathToIndexLoose) T p =
+    Some (pre_rank T h (key_node s from h), Z.b2z (stored T (key_node s from h))).
+Proof. intros HT HH Hs Hf Hov Hlen. exact (key_index T h s from HT HH Hs Hf Hov Hlen dbg). Qed.
+
+Lemma C03_key_index_strict_stmt T h s from (dbg : bool) : 1 <= T < 2 ^ 31 -> Height T = Z.of_nat h ->
+  bytes_ok s -> 0 <= from -> from + Z.of_nat h + 7 < 2 ^ 31 -> 8 * zlen s < 2 ^ 31 ->
+  stored T (key_node s from h) = true ->
+  exists p, PathOf s from (Z.of_nat h) = Some p /\
+    (if dbg then PathToIndex_debug else PathToIndex) T p = Some (pre_rank T h (key_node s from h)).
+Proof. intros HT HH Hs Hf Hov Hlen. exact (key_index_strict T h s from HT HH Hs Hf Hov Hlen dbg). Qed.
